@@ -905,6 +905,7 @@ def _sh(name, pool, root="B", n=7, d=3, forced=None, budget=100, engine="symex",
               budget=budget, per_path=30)
     if engine != "symex":
         sh["engine"] = engine
+        sh["budget"] = max(budget, 400)  # the choice-only driver's budget is wall-clock (these shards need <= 60 s CPU)
     return sh
 
 
